@@ -328,9 +328,11 @@ def plans_for(names, nyield, quick, r):
 
 def check(run, tier):
     quick = tier == "quick"
-    run.rule = ("leg A: TLC, Concurrency.tla: all interleavings of Enter / Acquire / SetVersion / SetIdentity / Exec / Release for "
-                "2 sessions x 2 items, 3 sessions and 4 sessions with the lock in place (invariants: every item evaluated under its "
-                "own session's identity and version, mutual exclusion; negative control LOCKED = FALSE violates it); leg B: "
+    run.rule = ("leg A: TLC, Concurrency.tla: all interleavings of Enter / Acquire / SetVersion / SetIdentity / CreateGen / "
+                "CreateStore / GetPh (placeholder) / Query / Release for 2, 3 and 4 sessions with the lock in place (invariants: "
+                "Linearizable = responses and store equal those of some serial order computed by the sequential step function, "
+                "every item evaluated under its own session's identity and version, mutual exclusion; four negative controls - no "
+                "lock, lock-free Query path, lock dropped during key generation, bounded wait - each violate them); leg B: "
                 "schedules forced on a real KmipEngine shared by real KmipSessions through a cooperative scheduler with yield points "
                 "at every SQL statement, after the identity and version assignments, before every access decision and around the "
                 "instrumented lock: all serial orders, every plan with <= 2 pre-emptions on a grid of yield points, seeded random "
@@ -338,13 +340,25 @@ def check(run, tier):
                 "each recorded history (calls with invocation/return times, responses, final store) is checked for "
                 "linearizability against the sequential KmipEngine specification by TLC (TraceLin.tla). "
                 "distinct = distinct (workload, schedule) runs.")
-    for (ses, name) in (("Two", "2x2"), ("Three", "3"), ("Four", "4")):
-        cfg = tlc.write_cfg("MC_C10.cfg", "SPECIFICATION Spec\nCONSTANTS\n  Sessions <- %s\n  LOCKED = TRUE\nINVARIANT OwnIdentity\n"
-                            "INVARIANT MutualExclusion\nCHECK_DEADLOCK FALSE\n" % ses)
-        res = tlc.run("MC_C10", cfg, allow_violation=True)
-        run.add_tlc(res, "MC_C10 sessions=%s" % name)
+    def c10cfg(ses, locked="TRUE", fast="FALSE", unlock="FALSE", timeout="FALSE", invs=("OwnIdentity", "MutualExclusion", "Linearizable")):
+        return tlc.write_cfg("MC_C10.cfg", "SPECIFICATION Spec\nCONSTANTS\n  Sessions <- %s\n  LOCKED = %s\n  FASTPATH = %s\n"
+                             "  UNLOCK_IN_CREATE = %s\n  TIMEOUT = %s\n%sCHECK_DEADLOCK FALSE\n"
+                             % (ses, locked, fast, unlock, timeout, "".join("INVARIANT %s\n" % i for i in invs)))
+    for (ses, name) in (("Two", "2 sessions"), ("Three", "3 sessions"), ("Four", "4 sessions")):
+        res = tlc.run("MC_C10", c10cfg(ses), allow_violation=True)
+        run.add_tlc(res, "MC_C10 %s, lock in place" % name)
         if res.violated:
             raise common.MachineryFailure("Concurrency.tla violates %s with the lock" % res.violated)
+    # negative controls: each realistic weakening of the lock must break serializability in the model
+    controls = {}
+    for what, kw in (("no lock", dict(locked="FALSE")), ("lock-free path for Query-only requests", dict(fast="TRUE")),
+                     ("lock dropped during key generation", dict(unlock="TRUE")), ("bounded wait for the lock", dict(timeout="TRUE"))):
+        for inv in ("OwnIdentity", "Linearizable"):
+            res = tlc.run("MC_C10", c10cfg("Three", invs=(inv,), **kw), allow_violation=True)
+            if inv not in res.violated:
+                raise common.MachineryFailure("negative control '%s' of Concurrency.tla does not violate %s" % (what, inv))
+        controls[what] = "OwnIdentity and Linearizable violated"
+    run.extra["concurrency_negative_controls"] = controls
     E.rsa_pair()
     for n in ("alice", "bob", "carol"):
         S.make_cert(1, "client", cn=n)
